@@ -701,44 +701,123 @@ def _symplectic_driver(chk):
 
 
 def _wrappers(chk):
-    """integrate(): event branch returns times [t0, t_hit] / [t0, tmax] and states [y0, y_hit] / [y0, y_last]."""
+    """integrate(): the event branch hands the caller's span, direction, tolerances and EVENT FUNCTION to the driver and
+    packages the driver's answer as times [t0, t_hit] / [t0, tmax] and states [y0, y_hit] / [y0, y_last]."""
     import hiten.algorithms.integrators.rk as rk
+    import hiten.algorithms.integrators.symplectic as sym
     from hiten.algorithms.types.configs import EventConfig
+    from hiten.algorithms.types.options import EventOptions
 
-    def th(cls, drv, hitval):
+    def make_event(c):                   # closures of ONE factory: same code object, different captured constant
+        def g(t, y):
+            return y[0] - c
+        return g
+
+    class Gen:
+        dim = 2
+
+        def rhs(self, t, y):
+            return y
+
+    def run_wrapper(which, ham, hitval, c):
+        """-> (solution, kwargs the low-level driver received)"""
+        seen = {}
+        if which in ("_RK45", "_DOP853"):
+            inst = rk.AdaptiveRK(order=5 if which == "_RK45" else 8)
+            C = getattr(rk, which)
+            drv = {"_RK45": "_integrate_rk45_until_event", "_DOP853": "_integrate_dop853_until_event"}[which] + ("_ham" if ham else "")
+            ret = lambda kw: (hitval, 0.37, _np.array([9.0, 8.0]), _np.array([7.0, 6.0]))
+        elif which == "_FixedStepRK":
+            inst = rk.RungeKutta(order=4)
+            C = rk._FixedStepRK
+            drv = "_integrate_fixed_rk_until_event" + ("_ham" if ham else "")
+            ret = lambda kw: (hitval, 0.37, _np.array([9.0, 8.0]), _np.array([[1.0, 2.0], [5.0, 5.0], [7.0, 6.0]]))
+        else:
+            raise AssertionError(which)
+
+        def fake(*a, **kw):
+            seen.update(kw)
+            seen["_args"] = a
+            return ret(kw)
+        saved = getattr(C, drv)
+        setattr(C, drv, staticmethod(fake))
+        try:
+            if ham:
+                import hiten.algorithms.dynamics.base as base
+
+                class HS(base._DynamicalSystem):
+                    def __init__(self):
+                        self._dim = 2
+                        self._rhs_compiled = None
+                    n_dof = 1
+                    jac_H = "J"
+                    clmo_H = "C"
+                    rhs_params = ("J", "C", 1)
+                    clmo = "C"
+                    dim = property(lambda self: 2)
+
+                    def _build_rhs_impl(self):
+                        return lambda t, y: y
+
+                    def dH_dQ(self, *a):
+                        return None
+
+                    def dH_dP(self, *a):
+                        return None
+
+                    def poly_H(self):
+                        return None
+                system = HS()
+            else:
+                system = Gen()
+            sol = inst.integrate(system, _np.array([1.0, 2.0]), _np.array([0.0, 0.5, 2.0]), event_fn=make_event(c),
+                                 event_cfg=EventConfig(direction=-1, terminal=True),
+                                 event_options=EventOptions(xtol=3e-7, gtol=5e-11))
+        finally:
+            setattr(C, drv, saved)
+        return sol, seen
+
+    def th(which, ham, hitval):
         def run():
-            inst = rk.AdaptiveRK(order=5 if cls == "_RK45" else 8)
-            C = getattr(rk, cls)
-            seen = {}
-
-            def fake(**kw):
-                seen.update(kw)
-                return hitval, 0.37, _np.array([9.0, 8.0]), _np.array([7.0, 6.0])
-            saved = getattr(C, drv)
-            setattr(C, drv, staticmethod(fake))
-            try:
-                class Sys:
-                    dim = 2
-
-                    def rhs(self, t, y):
-                        return y
-                ev_fn = lambda t, y: y[0]
-                sol = inst.integrate(Sys(), _np.array([1.0, 2.0]), _np.array([0.0, 0.5, 2.0]), event_fn=ev_fn,
-                                     event_cfg=EventConfig(direction=-1, terminal=True))
-            finally:
-                setattr(C, drv, saved)
-            if seen["t0"] != 0.0 or seen["tmax"] != 2.0 or seen["direction"] != -1 or list(seen["y0"]) != [1.0, 2.0]:
-                raise Refuted("event-driver-arguments", str({k: seen[k] for k in ("t0", "tmax", "direction")}))
-            want_t = [0.0, 0.37] if hitval else [0.0, 2.0]
-            want_y = [[1.0, 2.0], [9.0, 8.0]] if hitval else [[1.0, 2.0], [7.0, 6.0]]
-            if list(sol.times) != want_t or sol.states.tolist() != want_y:
-                raise Refuted("event-result-packaging", f"times {sol.times} states {sol.states.tolist()}")
+            # two calls with two closures of the same factory: each driver call must receive ITS event function
+            for c in (0.75, 0.25):
+                sol, seen = run_wrapper(which, ham, hitval, c)
+                if not seen:
+                    raise Refuted("event-driver-not-called", f"{which} ham={ham}")
+                bad = {}
+                for k, want in (("direction", -1), ("xtol", 3e-7), ("gtol", 5e-11)):
+                    if k in seen and seen[k] != want:
+                        bad[k] = (seen[k], want)
+                if "t0" in seen and (seen["t0"] != 0.0 or seen["tmax"] != 2.0):
+                    bad["span"] = (seen.get("t0"), seen.get("tmax"))
+                if "y0" in seen and list(seen["y0"]) != [1.0, 2.0]:
+                    bad["y0"] = list(seen["y0"])
+                if bad:
+                    raise Refuted(f"the event driver does not receive the caller's {sorted(bad)}: (got, want) = {bad}",
+                                  f"{which}.integrate(event), ham={ham}", inputs={"xtol": 3e-7, "gtol": 5e-11, "direction": -1})
+                g = seen.get("event_fn")
+                yy = _np.array([0.5, -1.0])
+                if g is None or g(0.0, yy) != yy[0] - c:
+                    raise Refuted("the event driver does not receive the caller's event function: for g_c(t,y) = y[0] - c with "
+                                  f"c = {c} (second closure of the same factory when c = 0.25) it evaluates to "
+                                  f"{None if g is None else g(0.0, yy)} at y[0] = 0.5",
+                                  f"{which}.integrate(event), ham={ham}", inputs={"c_sequence": [0.75, 0.25]})
+                if which != "_FixedStepRK":
+                    want_t = [0.0, 0.37] if hitval else [0.0, 2.0]
+                    want_y = [[1.0, 2.0], [9.0, 8.0]] if hitval else [[1.0, 2.0], [7.0, 6.0]]
+                    if list(sol.times) != want_t or sol.states.tolist() != want_y:
+                        raise Refuted("event-result-packaging", f"times {sol.times} states {sol.states.tolist()}")
         return run
-    for cls, drv in (("_RK45", "_integrate_rk45_until_event"), ("_DOP853", "_integrate_dop853_until_event")):
-        for hv in (True, False):
-            chk.obl(f"{cls}.integrate(event): span/direction forwarded; result = ([t0,{'t_hit' if hv else 'tmax'}], "
-                    f"[y0,{'y_hit' if hv else 'y_last'}])", "K2 wiring", [RK + f":{cls}.integrate"], "B4 exact evaluation",
-                    th(cls, drv, hv))
+    for which in ("_RK45", "_DOP853", "_FixedStepRK"):
+        for ham in (False, True):
+            for hv in (True, False):
+                if which == "_FixedStepRK" and not hv:
+                    continue
+                chk.obl(f"{which}.integrate(event{', Hamiltonian' if ham else ''}): span, direction, xtol, gtol and the caller's "
+                        f"event function forwarded (two closures of one factory in a row); result = ([t0,"
+                        f"{'t_hit' if hv else 'tmax'}], [y0,{'y_hit' if hv else 'y_last'}])", "K2 wiring",
+                        [RK + f":{which}.integrate", "hiten.algorithms.integrators.base:_Integrator._compile_event_function"],
+                        "B4 exact evaluation", th(which, ham, hv))
 
     import hiten.algorithms.poincare.singlehit.backend as sh
 
